@@ -3,6 +3,7 @@ pub mod apitrace;
 pub mod exchange;
 pub mod frost;
 pub mod hash;
+pub mod hashlong;
 pub mod lms;
 pub mod mangle;
 pub mod selftest;
@@ -21,7 +22,8 @@ fn run_frost(t: &mut Tape, tier: Tier, out: &mut RunOut) {
     // suite first, so a shrunk tape keeps its ciphersuite
     let suite = t.usize(5);
     let big_n = t.chance(1, 12);
-    let cfg = frost::Cfg { tier, big_n };
+    let many = !big_n && t.chance(1, 25);
+    let cfg = frost::Cfg { tier, big_n, many };
     match suite {
         0 => frost::run::<suite::Ed25519>(t, &cfg, out),
         1 => frost::run::<suite::Ristretto255>(t, &cfg, out),
@@ -45,6 +47,7 @@ fn run_lms(t: &mut Tape, tier: Tier, out: &mut RunOut) {
 pub fn registry() -> Vec<Engine> {
     vec![
         Engine { name: "hash", run: run_hash, hang_allowance_s: 20 },
+        Engine { name: "hashlong", run: hashlong::run, hang_allowance_s: 240 },
         Engine { name: "frost", run: run_frost, hang_allowance_s: 60 },
         Engine { name: "lms", run: run_lms, hang_allowance_s: 90 },
         Engine { name: "exchange", run: exchange::run, hang_allowance_s: 40 },
